@@ -3,14 +3,14 @@ PLAN = {
     "level": "proof",
     "manifest": {
         "technique": "Verus (z3) on recorder.rs functions extracted verbatim (get_recent_metrics, drain_histograms_to_distributions, add_description_if_missing) against a functional specification of the snapshot, over ASSUMED specifications of registry handle listing, recency, key_to_parts, std HashMap/IndexMap/RwLock and the bucket",
-        "text": "Partly claimed. Proved, for any number of keys and any handle values: the counters (gauges) section of a snapshot is exactly the fold over the live handles that the recency tracker keeps of `put(series_of(key), load(atomic))` -- the series identity always computed with the recorder's global labels, the value the atomic's content at the load (bit-reinterpreted for gauges), last writer wins; draining records the pending samples of each histogram's bucket into the distribution of the series that key renders as (created from the builder for that name if absent) and touches no other distribution; an expired histogram removes exactly that series' distribution (and an emptied per-name map); a description is inserted only if the sanitised name has none yet (HELP = first description).",
-        "note": "render() is proved to emit (HELP? TYPE SAMPLE* blank)* with every sample inside the family of its TYPE line (abstract lines; C08 owns the line grammar). NOT decided here: float formatting round-trip, label precedence inside key_to_parts (iterator/closure chain over IndexMap + format!), `_sum` as a float fold, concurrent record/render (inherits C05's gap), that AtomicBucket::clear_with hands each sample out exactly once (assumed), that Distribution::record_samples counts each sample (C15's contract). Atomic handle updates are C04's contracts.",
+        "text": "Partly claimed. Proved, for any number of keys and any handle values: the counters (gauges) section of a snapshot is exactly the fold over the live handles that the recency tracker keeps of `put(series_of(key), load(atomic))` -- the series identity always computed with the recorder's global labels, the value the atomic's content at the load (bit-reinterpreted for gauges), last writer wins; draining records the pending samples of each histogram's bucket into the distribution of the series that key renders as (created from the builder for that name if absent) and touches no other distribution; an expired histogram removes exactly that series' distribution (and an emptied per-name map); key_to_parts merges the global labels with the key's own (same name: the key wins, in place; new names appended); a description is inserted only if the sanitised name has none yet (HELP = first description).",
+        "note": "render() is proved to emit (HELP? TYPE SAMPLE* blank)* with every sample inside the family of its TYPE line (abstract lines; C08 owns the line grammar). NOT decided here: float formatting round-trip, `_sum` as a float fold, concurrent record/render (inherits C05's gap), that AtomicBucket::clear_with hands each sample out exactly once (assumed), that Distribution::record_samples counts each sample (C15's contract). Atomic handle updates are C04's contracts.",
     },
     "min_obligations": {"quick": 5, "thorough": 5},
     "assumptions": [
         "Registry::get_*_handles lists each live (key, handle) once (C06 + hashbrown iteration); HashMap::into_iter yields each entry once (typed shims shim_map_into_iter/shim_map_next)",
         "Recency::should_store_* is an opaque predicate keeps(kind, key, generation) here (its own contract is C12)",
-        "key_to_parts is an uninterpreted function parts_of(key, default_labels) -> (name, labels); its internals (sanitising, label merge) are not verified here",
+        "in recorder.verus.rs key_to_parts is an uninterpreted function parts_of(key, default_labels); its label merge (globals overridden in place by the key's own labels) is proved in labels.verus.rs with R19 (for_each -> for) and R20 (the sanitise+format! chain as an opaque shim)",
         "std HashMap entry API (vstd entry/or_insert + assumed or_insert_with/or_default), assumed HashMap::get_mut, vstd remove; IndexMap entry/or_insert_with/swap_remove/is_empty/clone as documented by indexmap; RwLock is a lock (content arbitrary at acquisition)",
         "obeys_key_model::<String>() and ::<Vec<String>>(): std Hash/Eq of String and Vec<String> agree",
         "R17: `bucket.clear_with(|s| entry.record_samples(s))` is one opaque step recorded(entry, pending(bucket)); AtomicBucket (C05) and Distribution::record_samples (C15) are not re-verified here",
@@ -19,5 +19,6 @@ PLAN = {
     ],
     "verus": [
         {"template": "recorder.verus.rs", "tier": "quick", "rlimit": 60, "min_functions": 5},
+        {"template": "labels.verus.rs", "tier": "quick", "rlimit": 40, "min_functions": 1},
     ],
 }
